@@ -215,6 +215,25 @@ static std::string leaf_block_check(int op, int nbk, u64 x0, u64 y0)
     }
     return "";
 }
+// mulScalar with a scalar that is a compile-time literal at the (inlined) call site: constant propagation may select code that a
+// run-time scalar never reaches
+#define C01_LITERALS(X) X(0ULL) X(1ULL) X(2ULL) X(3ULL) X(7ULL) X(255ULL) X(65537ULL) X(0x7FFFFFFFULL) X(0x80000000ULL) X(0xFFFFFFFEULL) X(0xFFFFFFFFULL) \
+    X(0x100000000ULL) X(0x100000001ULL) X(0xFFFFFFFF00000000ULL) X(0xFFFFFFFF00000001ULL) X(0xFFFFFFFFFFFFFFFFULL)
+template <u64 K> __attribute__((noinline)) static u64 mulscalar_literal(u64 x, int form)
+{
+    E a, r;
+    a.fe = x;
+    if (form == 0) { Goldilocks::mulScalar(r, a, K); return r.fe; }
+    Goldilocks::mulScalar(a, a, K); // result aliases the base
+    return a.fe;
+}
+static bool mulscalar_literal_run(u64 k, u64 x, int form, u64 &out)
+{
+#define X(L) if (k == (L)) { out = mulscalar_literal<(L)>(x, form); return true; }
+    C01_LITERALS(X)
+#undef X
+    return false;
+}
 static void leaf_inputs(u64 x, u64 y, u64 *in)
 {
     for (int i = 0; i < 14; i++) in[i] = (0x9E3779B97F4A7C15ULL * (u64)(i + 1)) % PR;
@@ -312,6 +331,15 @@ static int run_one(const std::string &cs_)
     std::string when = cs(m, "when", "");
 #if !defined(VW) && !defined(C01_AS_LIB)
     if (when == "static-init" && !g_early.lookup(op, a, b, r)) { printf("INFO replay: pair not in the static-initialisation set\n"); return 0; }
+    if (when == "literal")
+    {
+        u64 got = 0;
+        rep().stat("evaluations");
+        if (mulscalar_literal_run(b, a, form, got) && got % PR != F.mul(a, b))
+            rep().viol(fmt("C01.wrong.mulScalar.literal.w%u", W), casestr(op, form, a, b) + " when=literal", fmt("scalar written as a literal at the call site: got %s expected %s", hex(got).c_str(), hex(F.mul(a, b)).c_str()));
+        rep().flush();
+        return 0;
+    }
     if (when == "leaf")
     {
         int nbk = (int)cu(m, "block", 0);
@@ -515,6 +543,29 @@ int main(int argc, char **argv)
                     }
                     if (stop) break;
                 }
+        }
+        // mulScalar with literal scalars
+        {
+            std::vector<u64> lits;
+#define X(L) lits.push_back(L);
+            C01_LITERALS(X)
+#undef X
+            std::vector<u64> bases = g_early.A;
+            for (u64 x : {0xFFFFFFFF12345678ULL, 0x5555555555555555ULL, 0x8000000000000001ULL, 0xFFFFFFFEFFFFFFFFULL}) bases.push_back(x);
+            for (u64 k : lits)
+                for (u64 x : bases)
+                    for (int form = 0; form < 2; form++)
+                    {
+                        u64 got = 0;
+                        mulscalar_literal_run(k, x, form, got);
+                        n++;
+                        if (got % PR != F.mul(x, k))
+                        {
+                            rep().viol(fmt("C01.wrong.mulScalar.literal.w%u", W), casestr(MULSCALAR, form, x, k) + " when=literal", fmt("scalar written as a literal at the call site: got %s expected %s", hex(got).c_str(), hex(F.mul(x, k)).c_str()));
+                            goto literal_done;
+                        }
+                    }
+        literal_done:;
         }
         total_evals += n;
         total_cases += n;
